@@ -38,7 +38,7 @@ RULE = (
 RULE += (' ' + 'Also generated: a callable with a required positional-only parameter followed by defaulted positional-only ones (po3).')
 ASSUMPTIONS = [
     'a dataclass default_factory is not a "default value": it need not (and cannot) be materialized',
-    'inputs whose own build raises are skipped (nothing to preserve)',
+    'inputs whose own build raises are skipped (nothing to preserve), except when a TaggedValue without a value makes it fail: there the transformation must succeed and the result must fail to build with the same exception class',
 ]
 BUDGET = {'quick': 16 * 450, 'thorough': 16 * 10000}
 FLOORS = {'special_default': 0.3, 'sharing': 0.25}
@@ -64,7 +64,9 @@ def strategy_(draw, tier):
     root = recipe['nodes'].pop()
     payload = draw(st.integers(0, i - 1)) if i > 0 else {'leaf': 3}
     tv = {'k': 'TV', 'tags': [draw(st.sampled_from(['TagA', 'TagB', 'TagX']))], 'value': payload}
-    lst = {'k': 'list', 'items': [i, payload] + ([i] if draw(st.booleans()) else [])}
+    if draw(st.floats(0, 1)) < 0.3:
+      tv['value'] = None       # a TaggedValue that was never given a value
+    lst = {'k': 'list', 'items': [i] + ([payload] if isinstance(payload, int) else []) + ([i] if draw(st.booleans()) else [])}
     recipe['nodes'] += [tv, lst, root]
     if root['k'] == 'list':
       root['items'].append(i + 1)
@@ -218,11 +220,19 @@ def _check(case, out):
   out.nontrivial = special and sharing
   ps = t == 'replace_unconfigured_partials'
   before_build = _cbuild(root, ps)
-  if before_build[0] != 'ok':
+  has_unset_tv = any(type(v).__name__ == 'TaggedValueCls' and 'value' not in v.__arguments__ for _, v in C.walk(root))
+  unfilled = before_build[0] != 'ok' and has_unset_tv and (
+      before_build[1] == 'TaggedValueNotFilledError' or (before_build[1] == 'TypeError' and 'tagged_value_fn()' in before_build[2]))
+  if before_build[0] != 'ok' and not unfilled:
     out.skipped = 'input-does-not-build:' + before_build[1]
     return out
+  if unfilled:
+    # quantifier: "unset tagged values in containers" -- the transformation must still yield a
+    # configuration, and that configuration must fail to build for the same reason
+    out.cls('unset_tagged_value')
+    before_build = before_build[:2]
   dump_before = _dump_ok(root)
-  feat = _feature(root)
+  feat = 'unset-tagged-value' if unfilled else _feature(root)
   try:
     if t == 'inline':
       work = copy.deepcopy(root)
@@ -236,9 +246,13 @@ def _check(case, out):
     out.add('transformation-raises', exc_kind(e), fiddle_frame(e), t + ':' + feat, f'{e!r} on {root!r}'[:700])
     return out
   after_build = _cbuild(tc, ps)
+  if unfilled:
+    after_build = after_build[:2]
   if after_build != before_build:
     kind = 'raises'
-    if after_build[0] == 'ok':
+    if unfilled:
+      kind = 'builds-although-original-does-not' if after_build[0] == 'ok' else 'raises-differently'
+    elif after_build[0] == 'ok':
       vuni.reset_log()
       t1 = C.Canon(callable_probe=True, probe_symbols=ps, sharing=False).term(tc if C.is_symbol(tc) else fdl.build(tc))
       t0 = C.Canon(callable_probe=True, probe_symbols=ps, sharing=False).term(fdl.build(root))
@@ -261,6 +275,11 @@ def _check(case, out):
       out.prereq_failed += 1   # == raising is owned by C06
       eq = True
     if not eq:
+      if 'mutable-default' in _feature(root).split(',') and (
+          C.canon(root, fill_defaults=True, sharing=False) == C.canon(tc, fill_defaults=True, sharing=False)):
+        # same root cause as the listed build-level finding: an explicit argument equal to a mutable
+        # default and the unset parameter differ only in whether the default *object* is shared
+        feat = 'default-object-sharing'
       out.add('transformed-config-not-equal-to-original', 'mismatch', '', t + ':' + feat,
               f'orig {root!r}\nnew  {tc!r}'[:900])
       return out
